@@ -81,6 +81,16 @@ pub struct Field53B {
     pub location: Option<String>,
 }
 
+/// Party identifier line of field 53B: `[/1!a][/34x]` (kept as written) or a short code
+fn parse_field53b_party_identifier(line: &str) -> crate::Result<String> {
+    if line.starts_with('/') {
+        // validates the /1!a/34x, //code and /34x forms and their lengths
+        parse_party_identifier(line)?;
+        return Ok(line.to_string());
+    }
+    parse_max_length(line, 34, "Field53B party_identifier")
+}
+
 impl SwiftField for Field53B {
     fn parse(input: &str) -> crate::Result<Self>
     where
@@ -106,8 +116,7 @@ impl SwiftField for Field53B {
         if lines.len() >= 2 {
             // Two lines: first is party_identifier, second is location
             if !lines[0].is_empty() {
-                party_identifier =
-                    Some(parse_max_length(lines[0], 34, "Field53B party_identifier")?);
+                party_identifier = Some(parse_field53b_party_identifier(lines[0])?);
             }
             if !lines[1].is_empty() {
                 location = Some(parse_max_length(lines[1], 35, "Field53B location")?);
@@ -123,7 +132,7 @@ impl SwiftField for Field53B {
                         .all(|c| c.is_ascii_uppercase() || c.is_ascii_digit()));
 
             if is_party_identifier {
-                party_identifier = Some(parse_max_length(line, 34, "Field53B party_identifier")?);
+                party_identifier = Some(parse_field53b_party_identifier(line)?);
             } else {
                 location = Some(parse_max_length(line, 35, "Field53B location")?);
             }
